@@ -121,6 +121,14 @@ func c04Recover(c *core.Ctx, r *core.Reporter) {
 				r.Exists(fnKey(fn)+"/"+cb, ci.Pos(), "library thunk: %s", why)
 				continue
 			}
+			// the same forcing written in place (dethunkValueDepthFirst inlined): the function value is asserted out of what
+			// the library's own completion just returned
+			if strings.HasPrefix(cb, "thunk") {
+				if ok, _ := core.OnlyClasses(ci.Common().Value, "call:resolvePlannedField", "call:completePlanned*"); ok {
+					r.Exists(fnKey(fn)+"/"+cb, ci.Pos(), "library thunk: the value forced is the result of the library's own completion call")
+					continue
+				}
+			}
 			n++
 			key := fmt.Sprintf("%s/%s", fnKey(fn), cb)
 			protectedHere := fieldRecoverHandler(c, rootOf(fn)) != nil
